@@ -190,12 +190,36 @@ def r_c04_instants(s4, repo, scratch):
             'observed': 'all as written' if not bad else 'file %s: expected %s, printed %s' % bad[0], 'failed': bool(bad)}
 
 
+def r_c13_align_widest_printed(s4, repo, scratch):
+    """aligned names are padded to the widest PRINTED name: a source that prints nothing must not widen the field"""
+    d = os.path.join(scratch, 'c13_align')
+    os.makedirs(d, exist_ok=True)
+    a = os.path.join(d, 'a.log')
+    b = os.path.join(d, 'a_much_longer_file_name.log')
+    open(a, 'w').write('2020-01-02 00:00:01 a one\n2020-01-02 00:00:02 a two\n    continuation of a two\n2020-01-02 00:00:03 a three\n')
+    open(b, 'w').write('2019-06-01 00:00:01 old one\n2019-06-01 00:00:02 old two\n2019-06-01 00:00:03 old three\n')
+    flt = ['-a', '2020-01-01 00:00:00', '-t', '+00:00']
+    rc1, plain, _ = run_s4(s4, ['--color', 'never'] + flt + [a, b])
+    bad = None
+    for opt, name in (('--prepend-filename', 'a.log'), ('--prepend-filepath', a)):
+        rc2, deco, _ = run_s4(s4, ['--color', 'never'] + flt + [opt, '--prepend-file-align', a, b])
+        pre = (name + ':').encode()
+        stripped = b''.join((l[len(pre):] if l.startswith(pre) else b'<<' + l) for l in deco.splitlines(True))
+        if stripped != plain or not plain:
+            bad = bad or (opt, deco[:200])
+    return {'name': 'C13.align_widest_printed', 'input': d,
+            'how_made': 'a.log (3 messages inside the window) and a_much_longer_file_name.log (all messages before -a)',
+            'cmd': '%s --color never -a "2020-01-01 00:00:00" -t +00:00 --prepend-filename|--prepend-filepath --prepend-file-align %s %s' % (s4, a, b),
+            'expected': 'every line starts with the printed file\'s own name (no padding: it is the widest printed name) and ":"; removing it leaves the undecorated output',
+            'observed': 'as expected' if not bad else 'with %s: %r' % bad, 'failed': bool(bad)}
+
+
 RECIPES = {
     'C04': [r_c04_instants],
     'C10': [r_c03_evtx_window],
     'C01': [r_c01_tie_order, r_c01_chronological],
     'C06': [r_c01_tie_order, r_c01_chronological],
-    'C13': [r_c13_field_order_fixedstruct],
+    'C13': [r_c13_field_order_fixedstruct, r_c13_align_widest_printed],
     'C03': [r_c03_journal_before_inclusive, r_c03_evtx_window],
     'C08': [r_c08_equal_times, r_c08_order],
 }
